@@ -27,7 +27,7 @@ CONSTANTS
 INVARIANT RoundTrip
 CHECK_DEADLOCK FALSE
 """
-Q_YEARS = [1, 4, 99, 100, 400, 999, 1000, 1582, 1900, 1969, 2000, 2024, 2038, 2100, 9999]
+Q_YEARS = [1, 4, 100, 400, 999, 1000, 1900, 2000, 2024, 9999]
 Q_TIMES = [0, 59, 115959, 120000, 125959, 235959, 103015]
 Q_MICROS = [0, 1, 999, 1000, 999999, 120000, 12345]
 
@@ -116,6 +116,8 @@ def make_cases(ctx, tzrows):
     import pytz
     zones = ["UTC", "Asia/Kolkata", "America/New_York", "Europe/Berlin", "Australia/Lord_Howe", "Pacific/Apia",
              "Asia/Kathmandu", "America/St_Johns", "Pacific/Kiritimati", "Africa/Nairobi"]
+    # TIMEZONE given as a library offset / abbreviation (resolved through the library's own table)
+    libzones = {"+0530": 19800, "-03:30": -12600, "UTC+05:45": 20700, "UTC-12:00": -43200, "+1400": 50400, "AKST": -32400, "NPT": 20700}
     n_inst = 40 if ctx.quick() else 400
     insts = [10 ** 9, 10 ** 10 - 1, 1234567890, 2 ** 31 - 1, 2 ** 31, 2 ** 32, 1500000000, 9 * 10 ** 9, 8999999999, 4102444800]
     insts += [rng.randint(10 ** 9, 10 ** 10 - 1) for _ in range(n_inst)]
@@ -126,9 +128,14 @@ def make_cases(ctx, tzrows):
                 neg = rng.random() < 0.3
                 nn = -n if neg else n
                 inst = pytz.utc.localize(datetime.datetime(1970, 1, 1) + datetime.timedelta(seconds=nn))
-                off = int(inst.astimezone(pytz.timezone(z)).utcoffset().total_seconds())
+                zz = z
+                if rng.random() < 0.15:
+                    zz = rng.choice(sorted(libzones))
+                    off = libzones[zz]
+                else:
+                    off = int(inst.astimezone(pytz.timezone(z)).utcoffset().total_seconds())
                 s_ = str(nn) + ("" if sfx == 0 else ("%03d" % (frac // 1000) if sfx == 3 else "%06d" % frac))
-                st = {"TIMEZONE": z}
+                st = {"TIMEZONE": zz}
                 if neg:
                     st["PARSERS"] = ["timestamp", "negative-timestamp", "relative-time", "custom-formats", "absolute-time"]
                 days, sod = divmod(nn, 86400)
